@@ -119,6 +119,9 @@ def build_events():
     same_r = with_src(S['S45'], 'alpha = 100\nbeta = 2\ngamma = 3')
     merges.append(('m9:same side texts, base differs in the last line', with_src(S['S45'], 'alpha = 1\nbeta = 2\ngamma = 0'), same_l, same_r, ['inline', None, None, True]))
     merges.append(('m10:same side texts, base differs in the first line', with_src(S['S45'], 'alpha = 0\nbeta = 2\ngamma = 3'), same_l, same_r, ['inline', None, None, True]))
+    # a merge with transient-ignoring switched off (cell deleted by one side, only re-run by the other: a conflict then): defaults shared between
+    # Strategies objects must not be changed by the merges with the default options that came before
+    merges.append(('m11:S45 cell deleted vs re-run, transients not ignored', S['S45'], d1(S['S45'], 'cell-delete@0'), d1(S['S45'], 'ec@0:7'), ['inline', None, None, False]))
     targets = [
         ('t0:all on', dict(sources=True, outputs=True, attachments=True, metadata=True, identifier=True, details=True)),
         ('t1:no sources', dict(sources=False, outputs=True, attachments=True, metadata=True, identifier=True, details=True)),
